@@ -30,6 +30,9 @@ Final_BlankRunsWhole  == pc = 9 => \A i \in 1..(Len(chunks) - 1) : ~(IsSpaceStr(
 Final_BlanksPure      == pc = 9 => \A i \in 1..Len(chunks) : (\E k \in 1..Len(chunks[i]) : IsSpaceChar(chunks[i][k])) =>
                                        (IsSpaceStr(chunks[i]) \/ DQ \in Range(chunks[i]) \/ BSL \in Range(chunks[i]) \/ SQ \in Range(chunks[i]))
 
+\* C05, lexical level (see LexerOps): delimiters separate with or without blanks around them
+C05_DelimitersSeparate == (pc = 9 /\ QuoteFree(input)) => DelimsSeparate(chunks)
+
 L == INSTANCE Lexer
 RefinesContract == L!Spec
 =============================================================================
